@@ -166,7 +166,8 @@ class Ctx:
         cfg = os.path.join(self.work, tag + ".cfg")
         with open(cfg, "w") as f:
             f.write(cfg_text)
-        cmd = ["java", "-Xss1g", "-XX:+UseParallelGC", "-Xmx%dg" % (tv_heap_gb(self.tier) if workers == 1 else MC_HEAP_GB)]
+        cmd = ["java", "-Xss1g", "-XX:+UseParallelGC", "-Xmx%dg" % (tv_heap_gb(self.tier) if workers == 1 else MC_HEAP_GB),
+               "-Djava.io.tmpdir=" + self.work]     # TLC leaves tlc-* entries in the JVM's temp directory
         if deque:
             cmd.append("-Dtlc2.tool.queue.IStateQueue=StateDeque")
         cmd += ["-cp", TLA_CP, "tlc2.TLC", "-noGenerateSpecTE", "-metadir", md,
